@@ -84,6 +84,57 @@ theorem valueFromAst_congrA : ∀ fuel : Nat,
       cases l with
       | nil => rfl
       | cons f fs => simp only [coerceLiveFields, i1, i4]
+theorem mapM_map_congr {α β γ} (f g : α → β) (F G : β → R γ) : ∀ (l : List α), (∀ a ∈ l, F (f a) = G (g a)) →
+    (l.map f).mapM F = (l.map g).mapM G
+  | [], _ => rfl
+  | a :: as, h => by
+    simp only [List.map_cons, List.mapM_cons, h a (by simp), mapM_map_congr f g F G as (fun x hx => h x (by simp [hx]))]
+
+theorem defaultValueA (lit : Lit) (ty : Ty) : defaultValue (docEnvA s c apps) lit ty = defaultValue (docEnv s) lit ty := by
+  simp only [defaultValue, (valueFromAst_congrA s c apps coerceFuel).1]
+
+theorem resolvesA' : (docEnvA s c apps).resolves = (docEnv s).resolves := funext (resolvesA s c apps)
+
+theorem checkRefA (t : Ty) : checkRef (docEnvA s c apps) t = checkRef (docEnv s) t := by
+  simp only [checkRef, resolvesA]
+
+theorem buildArgumentA (path : String) (a : ArgD) :
+    buildArgument (docEnvA s c apps) (argToDefA s c apps path a) = buildArgument (docEnv s) (argToDef s a) := by
+  unfold buildArgument
+  simp only [checkRefA, defaultValueA]
+  rfl
+
+theorem deprecationReason_kept (r : Option String) (path : String) :
+    deprecationReason (deprDirs r ++ keptAt c apps path) = deprecationReason (deprDirs r) := by
+  rw [← deprecationReason_erase (deprDirs r ++ keptAt c apps path), List.filter_append, filter_kept, isSpec_depr, List.append_nil]
+
+theorem buildFieldA (tname : String) (f : FieldD) :
+    buildField (docEnvA s c apps) (fieldToDefA s c apps tname f) = buildField (docEnv s) (fieldToDef s f) := by
+  have hargs := mapM_map_congr (argToDefA s c apps (tname ++ "." ++ f.name)) (argToDef s) (buildArgument (docEnvA s c apps))
+    (buildArgument (docEnv s)) f.args (fun a _ => buildArgumentA s c apps _ a)
+  simp only [buildField, fieldToDefA, fieldToDef, checkRefA, hargs, deprecationReason_kept]
+
+theorem buildEnumValueA (tname : String) (v : EnumValD) : buildEnumValue (enumValToDefA c apps tname v) = buildEnumValue (enumValToDef v) := by
+  simp only [buildEnumValue, enumValToDefA, enumValToDef, deprecationReason_kept]
+
+theorem buildTypeDefA (t : TypeD) :
+    buildTypeDef (docEnvA s c apps) (typeToDefA s c apps t) = buildTypeDef (docEnv s) (typeToDef s t) := by
+  have hf := mapM_map_congr (fieldToDefA s c apps t.name) (fieldToDef s) (buildField (docEnvA s c apps)) (buildField (docEnv s)) t.fields
+    (fun f _ => buildFieldA s c apps t.name f)
+  have hv := mapM_map_congr (enumValToDefA c apps t.name) enumValToDef buildEnumValue buildEnumValue t.values
+    (fun v _ => buildEnumValueA c apps t.name v)
+  have hi := mapM_map_congr (argToDefA s c apps t.name) (argToDef s) (buildArgument (docEnvA s c apps)) (buildArgument (docEnv s))
+    t.inputFields (fun a _ => buildArgumentA s c apps t.name a)
+  have hn : (t.values.map (enumValToDefA c apps t.name)).map (·.name) = (t.values.map enumValToDef).map (·.name) := by
+    simp [List.map_map, Function.comp_def, enumValToDefA, enumValToDef]
+  unfold buildTypeDef
+  cases hk : t.kind <;> simp only [typeToDefA, typeToDef, hk, checkNames, resolvesA', hf, hv, hi, hn]
+
+theorem buildDirectiveA (d : DirectiveD) :
+    buildDirective (docEnvA s c apps) (directiveToDefA s c apps d) = buildDirective (docEnv s) (directiveToDef s d) := by
+  have ha := mapM_map_congr (argToDefA s c apps ("@" ++ d.name)) (argToDef s) (buildArgument (docEnvA s c apps))
+    (buildArgument (docEnv s)) d.args (fun a _ => buildArgumentA s c apps _ a)
+  simp only [buildDirective, directiveToDefA, directiveToDef, ha]
 end
 
 end PyGql.Props.C12
